@@ -12,7 +12,7 @@ import z3
 from .state import Obl
 
 
-def relevant_classes(engine, formulas) -> set[int]:
+def relevant_classes(engine, formulas, names: set | None = None) -> set[int]:
     n = len(engine.ct.names)
     seen: set[int] = set()
     nums: set[int] = set()
@@ -30,6 +30,8 @@ def relevant_classes(engine, formulas) -> set[int]:
         elif z3.is_quantifier(t):
             todo.append(t.body())
         else:
+            if names is not None and z3.is_app(t) and t.num_args() > 0:
+                names.add(t.decl().name())
             todo.extend(t.children())
     out: set[int] = set()
     for c in nums:
@@ -37,19 +39,42 @@ def relevant_classes(engine, formulas) -> set[int]:
     return out
 
 
+def _decl_names(ax) -> set[str]:
+    names: set[str] = set()
+    relevant_classes_dummy = []
+    todo = [ax]
+    seen = set()
+    while todo:
+        t = todo.pop()
+        if t.get_id() in seen:
+            continue
+        seen.add(t.get_id())
+        if z3.is_quantifier(t):
+            todo.append(t.body())
+        else:
+            if z3.is_app(t) and t.num_args() > 0 and t.decl().kind() == z3.Z3_OP_UNINTERPRETED:
+                names.add(t.decl().name())
+            todo.extend(t.children())
+    return names
+
+
 def background_for(engine, formulas) -> list:
     """Background theory restricted to the interned classes that can matter for these formulas
     (every class id occurring in them, closed under base classes) + the quantified closure axioms."""
     from . import vals as V
     from . import lib
-    rel = sorted(relevant_classes(engine, formulas))
+    names: set[str] = set()
+    rel = sorted(relevant_classes(engine, formulas, names))
     ct = engine.ct
     ax = []
     for a in rel:
         anc = ct.ancestors(a)
         for b in rel:
             ax.append(V.subclass(a, b) if b in anc else z3.Not(V.subclass(a, b)))
-    ax += [q for q in engine.background() if z3.is_quantifier(q)]
+    # quantified axioms are included lazily: only when one of their uninterpreted symbols occurs
+    for q in engine.background():
+        if z3.is_quantifier(q) and (_decl_names(q) & names):
+            ax.append(q)
     return ax
 
 
